@@ -1983,4 +1983,25 @@ func (sm *StyleManager) addTableStyles() {
 		},
 	}
 	sm.AddStyle(tableGrid)
+
+	// 表格样式模板：document.ApplyTableStyle 提供的模板名会作为 w:tblStyle 写入文档，
+	// 因此每个模板名都必须有对应的样式定义，否则保存的文档会引用不存在的样式
+	templateStyles := []struct {
+		id      string
+		basedOn string
+	}{
+		{"TableNormal", "a1"}, {"TableGrid", "ab"}, {"TableList", "ab"},
+		{"TableColorful1", "ab"}, {"TableColorful2", "ab"}, {"TableColorful3", "ab"},
+		{"TableColumns1", "ab"}, {"TableColumns2", "ab"}, {"TableColumns3", "ab"},
+		{"TableRows1", "ab"}, {"TableRows2", "ab"}, {"TableRows3", "ab"},
+		{"TablePlain1", "a1"}, {"TablePlain2", "a1"}, {"TablePlain3", "a1"},
+	}
+	for _, tpl := range templateStyles {
+		sm.AddStyle(&Style{
+			Type:    string(StyleTypeTable),
+			StyleID: tpl.id,
+			Name:    &StyleName{Val: tpl.id},
+			BasedOn: &BasedOn{Val: tpl.basedOn},
+		})
+	}
 }
